@@ -101,6 +101,8 @@ class InlineThread:
     completion at start()': worker threads execute synchronously in the caller's thread (so the step counter sees
     them); daemon threads (the progress reporter) stay real threads."""
 
+    uncaught = 0  # exceptions that died with their (inline) thread, for the evidence
+
     def __new__(cls, *args, **kwargs):
         if kwargs.get("daemon"):
             return _threading.Thread(*args, **kwargs)
@@ -110,7 +112,12 @@ class InlineThread:
         self._target, self._args, self._kwargs = target, args, kwargs or {}
 
     def start(self):
-        self._target(*self._args, **self._kwargs)
+        # as in a real thread, an exception that leaves the thread's body ends that thread only: it never reaches the code
+        # that started it (harness conditions - step / memory budgets - are BaseExceptions and do pass)
+        try:
+            self._target(*self._args, **self._kwargs)
+        except Exception:
+            InlineThread.uncaught += 1
 
     def join(self, timeout=None):
         return None
